@@ -492,6 +492,21 @@ func runC03(t *testing.T, x c03Scn, verbose bool) vfCase {
 	}
 	if !out.HSOK && c.Verdict == "" {
 		// injections during the handshake may legitimately make it fail only if they are forgeries
+		posFaults := false
+		for side := 0; side < 2; side++ {
+			for _, f := range x.Sc.Faults.Pos[side] {
+				if f.Drop || f.Dup > 0 || f.DelayMs > 0 {
+					posFaults = true
+				}
+			}
+		}
+		if posFaults {
+			// positional faults hit the k-th packet a side sends: an injected packet that is answered
+			// (HEARTBEAT-ACK, SACK, ABORT ...) shifts every later position, so a run without the
+			// injections is no reference for this one
+			c.Skip = true
+			return c
+		}
 		if onlyIgnorable && !aborted {
 			// was it the injections or the scenario's own packet faults? run it again without them
 			sc2 := x.Sc
